@@ -75,6 +75,11 @@ def c04(tier):
             out.append(("%s-N3-offset%+d" % (meth, o),
                         _mk(method=meth, N=3, M=1, degree=1, ode=E("f", None, ("x", "u", "t")),
                             constraints=[Con(E("co", 1, ("x", ("off", "x", o), "u")), "le", 7.0)])))
+        # constraints made ONLY of shifted operands (plus global quantities): still path constraints, one instance per interval
+        out.append(("%s-N3-offset-only" % meth,
+                    _mk(method=meth, N=3, M=1, degree=1, variables={"": [1]}, ode=E("f", None, ("x", "u", "t")),
+                        constraints=[Con(E("cs", 1, (("off", "x", 1),)), "le", 5.0), Con(E("cv", 1, ("v", ("off", "x", -1))), "eq", 1.0),
+                                     Con(E("cu", 1, (("off", "u", 1), ("off", "x", 2))), "le", 6.0, include_last=False)])))
         out.append(("%s-N3-offset-mixed" % meth,
                     _mk(method=meth, N=3, M=1, degree=1, ode=E("f", None, ("x", "u", "t")),
                         constraints=[Con(E("cm", 1, (("off", "x", 1), ("off", "u", -1), "x")), "le", 7.0)])))
@@ -302,7 +307,45 @@ def c10(tier):
     return out
 
 
-FAMILIES = dict(C10=c10, C01=c01, C02=c02, C04=c04, C05=c05, C06=c06, C09=c09, C11=c11, C14=c14)
+def _with_generated(fn, select, n_quick, n_thorough):
+    """catalogue family + the generated specifications (contracts/randspec.py) that are relevant for the property"""
+    def fam(tier):
+        from . import randspec
+        out = list(fn(tier))
+        n = n_thorough if tier == "thorough" else n_quick
+        for i in range(n):
+            kw = randspec.make(i)
+            if select(kw):
+                out.append(("R%03d-%s" % (i, kw["method"]), (lambda i=i: Spec(**randspec.make(i)))))
+        return out
+    return fam
+
+
+def _c10_generated(tier):
+    from . import randspec
+    out = list(c10(tier))
+    for i in range(NT if tier == "thorough" else NQ):
+        kw = randspec.make(i)
+        if kw["algebraics"]:
+            continue                       # guesses for algebraic variables are outside the oracle
+        def fac(i=i):
+            kw = randspec.make(i)
+            ini, after = randspec.make_initial(i, kw)
+            return Spec(initial=ini, initial_after=after, **kw)
+        out.append(("R%03d-%s-guesses" % (i, kw["method"]), fac))
+    return out
+
+
+NQ, NT = 80, 300
+FAMILIES = dict(C10=_c10_generated,
+                C01=_with_generated(c01, lambda kw: kw["method"] in ("MS", "SS"), NQ, NT),
+                C02=_with_generated(c02, lambda kw: kw["method"] == "DC", NQ, NT),
+                C04=_with_generated(c04, lambda kw: bool(kw["constraints"]), NQ, NT),
+                C05=_with_generated(c05, lambda kw: bool(kw["objective"]), NQ, NT),
+                C06=_with_generated(c06, lambda kw: kw["grid"] != dict(kind="uniform"), NQ, NT),
+                C09=_with_generated(c09, lambda kw: bool(kw["params"]) or kw["T"][0] == "param" or kw["t0"][0] == "param", NQ, NT),
+                C11=_with_generated(c11, lambda kw: kw["T"][0] != "fixed" or kw["t0"][0] != "fixed", NQ, NT),
+                C14=_with_generated(c14, lambda kw: bool(kw["scales"]) or any(c.scale != 1 for c in kw["constraints"]), NQ, NT))
 
 
 def find(prop, label, tier="thorough"):
